@@ -65,7 +65,18 @@ ErrData(t) ==
                \/ t.mergedn[c] # fs[Picked(fs, c)].n[c]
                \/ Picked(fs, c) \notin SRng(t.matches[c]) THEN 2936    \* a merged row is not the row of the file the rule picks
          ELSE 0
+\* backptr: {"kind":"backptr", "child":b, "search":b, "alt":b, "used":"child"|"alt"|"missing", "stage_ok":b, "comp_ok":b,
+\*           "comp_same":b, "comp_clean":b}
+ErrBack(t) ==
+    LET r == Resolve(t.child, t.search, t.alt) IN
+    IF t.used # r THEN 2941                                  \* the pointer resolves to another file than the rule names
+    ELSE IF t.stage_ok # (r # "missing") THEN 2942           \* query-marker stage ran / stopped against the rule
+    ELSE IF t.comp_ok # (r # "missing") THEN 2943            \* composite runner (markers from a p-value mask) against the rule
+    ELSE IF t.comp_ok /\ ~t.comp_same THEN 2944              \* composite result differs from the two runners run one by one
+    ELSE IF ~t.comp_clean THEN 2945                          \* the composite runner left something in the scratch directory
+    ELSE 0
 Err(t) == IF t.kind = "names" THEN ErrNames(t)
+          ELSE IF t.kind = "backptr" THEN ErrBack(t)
           ELSE IF t.kind = "datasets" THEN ErrData(t)
           ELSE IF t.kind = "otf" THEN ErrOtf(t)
           ELSE ErrVal(t, 1, [fixed |-> t.fixed, unk |-> t.unk, rec |-> None3])
